@@ -1,5 +1,7 @@
 import CprocVerif.Model.CSem
 import CprocVerif.Model.Lower
+import CprocVerif.Model.CSem2
+import CprocVerif.Model.Lower2
 import CprocVerif.Spec.QbeWf
 /-!
 Line-protocol driver for property C01 (fragment 𝔽₁: pure scalar integer expressions).
@@ -31,6 +33,27 @@ Function descriptions are S-expressions mirroring cproc's typed tree after parsi
            | (cond TY EXPR EXPR EXPR)         EXPRCOND
     OP   ::= mul div mod add sub shl shr and or xor lt gt le ge eq ne lor land
     TY   ::= b c sc uc s us i u l ul ll ull   (_Bool, char, signed char, unsigned char, short, …)
+
+Fragment 𝔽₂ (function bodies with statements, `Model/CSem2.lean`, `Model/Lower2.lean`): a line may also be
+
+    FUNC ::= (fn2 NAME RET (TY …) (TY …) STMT)   RET name(params) STMT; the second list: types of the
+                                                  block-scope objects in the order of their declarations
+    STMT ::= (skip)                               `;` / `{}`
+           | (decl K TY) | (decl K TY EXPR)       declaration of variable K without / with initialiser
+                                                  (EXPR already converted to TY, as `parseinit` does)
+           | (set K TY EXPR)                      `x = EXPR;` (EXPR converted to TY); `x op= e` comes as
+                                                  (set K TY (cast TY (op … (p TY K) e))) — see CSem2.lean
+           | (inc K TY) | (dec K TY)              `x++;` `++x;` / `x--;` `--x;`
+           | (expr EXPR)                          expression statement without side effect
+           | (ret EXPR)                           `return EXPR;` (EXPR converted to RET)
+           | (block STMT …)                       compound statement
+           | (if EXPR STMT) | (ifelse EXPR STMT STMT)
+           | (while EXPR STMT) | (do STMT EXPR)
+           | (for STMT COND STMT STMT)            init, condition, step, body; COND ::= EXPR | (none)
+           | (break) | (continue)
+    In EXPR, (p TY K) names VARIABLE K: parameters 0 … n-1, then the locals in declaration order.
+`eval` on such a line runs `CSem2.runC` with the fuel given by `--cfuel N` (default 100000; `c=ub` also
+when that fuel is exhausted) and the IL of `Lower2.emitFunc`.
 -/
 
 open CprocVerif CprocVerif.CSem CprocVerif.Lower CprocVerif.CInt
@@ -109,6 +132,53 @@ def parseFuncLine (s : String) : Except String CSem.Func := do
   let toks := tokenize s
   parseFunc (toks.length + 1) (← parseSExp toks)
 
+open CprocVerif.CSem2 in
+def parseStmtF : Nat → SExp → Except String Stmt
+  | 0, _ => .error "statement too deep"
+  | n + 1, e =>
+    match e with
+    | .list [.atom "skip"] => pure .skip
+    | .list [.atom "decl", k, t] => do pure (.decl (← parseNat k) (← parseTy t) none)
+    | .list [.atom "decl", k, t, x] => do
+      pure (.decl (← parseNat k) (← parseTy t) (some (← parseExprF n x)))
+    | .list [.atom "set", k, t, x] => do pure (.assign (← parseNat k) (← parseTy t) (← parseExprF n x))
+    | .list [.atom "inc", k, t] => do pure (.incdec (← parseNat k) (← parseTy t) true)
+    | .list [.atom "dec", k, t] => do pure (.incdec (← parseNat k) (← parseTy t) false)
+    | .list [.atom "expr", x] => do pure (.expr (← parseExprF n x))
+    | .list [.atom "ret", x] => do pure (.ret (← parseExprF n x))
+    | .list (.atom "block" :: ss) =>
+      let rec blk : List SExp → Except String Stmt
+        | [] => pure .skip
+        | [s] => parseStmtF n s
+        | s :: r => do pure (.seq (← parseStmtF n s) (← blk r))
+      blk ss
+    | .list [.atom "if", c, a] => do pure (.ite (← parseExprF n c) (← parseStmtF n a))
+    | .list [.atom "ifelse", c, a, b] => do
+      pure (.itee (← parseExprF n c) (← parseStmtF n a) (← parseStmtF n b))
+    | .list [.atom "while", c, b] => do pure (.while_ (← parseExprF n c) (← parseStmtF n b))
+    | .list [.atom "do", b, c] => do pure (.dowhile (← parseStmtF n b) (← parseExprF n c))
+    | .list [.atom "for", i, c, st, b] => do
+      let c' ← match c with
+        | .list [.atom "none"] => pure none
+        | c => do pure (some (← parseExprF n c))
+      pure (.seq (← parseStmtF n i) (.for_ c' (← parseStmtF n st) (← parseStmtF n b)))
+    | .list [.atom "break"] => pure .break_
+    | .list [.atom "continue"] => pure .continue_
+    | _ => .error "statement"
+
+def parseFunc2 (fuel : Nat) : SExp → Except String CSem2.Func
+  | .list [.atom "fn2", .atom name, ret, .list ps, .list ls, body] => do
+    pure ⟨name, ← parseTy ret, ← ps.mapM parseTy, ← ls.mapM parseTy, ← parseStmtF fuel body⟩
+  | _ => .error "function"
+
+/-- A line describes a function of 𝔽₁ (`fn`) or of 𝔽₂ (`fn2`). -/
+def parseAnyLine (s : String) : Except String (CSem.Func ⊕ CSem2.Func) := do
+  let toks := tokenize s
+  let sx ← parseSExp toks
+  match sx with
+  | .list (.atom "fn2" :: _) => do pure (.inr (← parseFunc2 (toks.length + 1) sx))
+  | _ => do pure (.inl (← parseFunc (toks.length + 1) sx))
+
 def parseIntLit (s : String) : Option Int :=
   if s.startsWith "-" then (s.drop 1).toString.toNat?.map fun n => -(n : Int)
   else s.toNat?.map fun n => (n : Int)
@@ -117,11 +187,13 @@ structure Opts where
   cs : Bool := true
   start : Nat := 0
   fuel : Nat := 1000000
+  cfuel : Nat := 100000
 
 def takeOpts : List String → Opts → Opts × List String
   | "--cs" :: v :: r, o => takeOpts r { o with cs := v != "0" }
   | "--start" :: v :: r, o => takeOpts r { o with start := v.toNat?.getD 0 }
   | "--fuel" :: v :: r, o => takeOpts r { o with fuel := v.toNat?.getD o.fuel }
+  | "--cfuel" :: v :: r, o => takeOpts r { o with cfuel := v.toNat?.getD o.cfuel }
   | r, o => (o, r)
 
 def cmdEmit (o : Opts) : IO UInt32 := do
@@ -133,11 +205,14 @@ def cmdEmit (o : Opts) : IO UInt32 := do
     if line.isEmpty then break
     let l := line.trimAscii.toString
     if l.isEmpty then continue
-    match parseFuncLine l with
+    match parseAnyLine l with
     | .error e => out.putStrLn ("bad " ++ e)
-    | .ok f =>
+    | .ok (.inl f) =>
       out.putStr (render (emitFunc o.cs id f))
       id := nextBlockId o.cs id f
+    | .ok (.inr f) =>
+      out.putStr (render (Lower2.emitFunc o.cs id f))
+      id := Lower2.nextBlockId o.cs id f
     out.putStrLn "--"
   out.flush
   return 0
@@ -152,9 +227,26 @@ def cmdEval (o : Opts) : IO UInt32 := do
     if l.isEmpty then continue
     match l.splitOn "|" with
     | [fs, as] =>
-      match parseFuncLine fs with
+      match parseAnyLine fs with
       | .error e => out.putStrLn ("bad " ++ e)
-      | .ok f =>
+      | .ok (.inr f) =>
+        let ws := (as.trimAscii.toString.splitOn " ").filter (· ≠ "")
+        match ws.mapM parseIntLit with
+        | none => out.putStrLn "bad argument"
+        | some vs =>
+          let okTy := f.wt && envOKb o.cs f.params vs
+          let c := match CSem2.runC o.cs o.cfuel f vs with
+            | some v => toString v
+            | none => "ub"
+          let qf := Lower2.emitFunc o.cs o.start f
+          let p := Qbe.Prog.ofModule (moduleOf qf)
+          let r := Qbe.runFunc p Qbe.noExt f.name (argsOf f.params vs) o.fuel
+          let wfOk := match Qbe.wf (moduleOf qf) with
+            | .ok () => true
+            | .error _ => false
+          out.putStrLn ((if okTy then "" else "wt=0 ") ++ (if wfOk then "" else "wf=0 ") ++
+            "c=" ++ c ++ " il=" ++ r.end.render)
+      | .ok (.inl f) =>
         let ws := (as.trimAscii.toString.splitOn " ").filter (· ≠ "")
         match ws.mapM parseIntLit with
         | none => out.putStrLn "bad argument"
@@ -181,5 +273,5 @@ def main (args : List String) : IO UInt32 := do
   | ["emit"] => cmdEmit o
   | ["eval"] => cmdEval o
   | _ =>
-    IO.eprintln "usage: drv_c01 [--cs 0|1] [--start N] [--fuel N] emit|eval"
+    IO.eprintln "usage: drv_c01 [--cs 0|1] [--start N] [--fuel N] [--cfuel N] emit|eval"
     return 2
